@@ -448,7 +448,10 @@ func (s *Service) restoreFromECPartsByRule(ctx context.Context, cnr cid.ID, pare
 	for i := range rule.ParityPartNum {
 		partIdx := int(rule.DataPartNum + i)
 		eg.Go(func() error {
-			_, part, err := s.getECPart(gCtx, cnr, parent, rule, ruleIdx, sortedNodes, partIdx)
+			parentHdr, part, err := s.getECPart(gCtx, cnr, parent, rule, ruleIdx, sortedNodes, partIdx)
+			if err == nil && !gotHdr.Swap(true) {
+				hdr = parentHdr // all data parts are unavailable: parity parts carry the parent header too
+			}
 			if err != nil {
 				if errors.Is(err, apistatus.ErrObjectAlreadyRemoved) || errors.Is(err, apistatus.ErrObjectAccessDenied) || errors.Is(err, gCtx.Err()) ||
 					errors.As(err, new(*object.SplitInfoError)) {
@@ -474,6 +477,10 @@ func (s *Service) restoreFromECPartsByRule(ctx context.Context, cnr cid.ID, pare
 	}
 	if err := eg.Wait(); err != nil && !errors.Is(err, errInterrupt) {
 		return object.Object{}, err
+	}
+
+	if pldLen = hdr.PayloadSize(); pldLen == 0 && gotHdr.Load() {
+		return hdr, nil // empty parent known from a parity part only
 	}
 
 	if rem = islices.CountNilsInTwoDimSlice(parts); rem > int(rule.ParityPartNum) {
